@@ -21,6 +21,12 @@ func (ex *Exec) call(st *State, at ssa.Instruction, cc *ssa.CallCommon, k cont) 
 	for _, a := range cc.Args {
 		args = append(args, ex.val(st, a))
 	}
+	if len(st.frames) == 1 && ex.topC != nil && !ex.inInit {
+		args = ex.ghostAsserts(st, name, args, cc.StaticCallee() == nil || !isRepoFn(cc.StaticCallee()))
+		if st.infeasible() {
+			return
+		}
+	}
 	// builtins
 	if b, ok := cc.Value.(*ssa.Builtin); ok {
 		k(st, []Value{ex.builtin(st, b.Name(), cc, args)})
@@ -868,4 +874,71 @@ func (ex *Exec) substValue(st *State, v Value, m map[*Term]*Term) Value {
 		return nt
 	}
 	return v
+}
+
+// ghostAsserts handles `assert@<callee>[label] expr` clauses of the function under verification: before a call
+// to a matching callee, expr (over the contract's names plus $0,$1.. for the call's arguments) is proved and
+// then assumed. When expr has the shape `$k == E` for a byte-slice argument and a fixed-length E, the
+// argument's memory is then rewritten to E's bytes (a ghost update justified by the equality just proved),
+// which keeps later terms in the spec's normal form.
+func (ex *Exec) ghostAsserts(st *State, callee string, args []Value, readOnlyCallee bool) []Value {
+	for _, cl := range ex.topC.Clauses {
+		if cl.Kind != "assert" || !strings.Contains(callee, cl.Callee) {
+			continue
+		}
+		vars := map[string]Value{}
+		for k, v := range ex.topVars {
+			vars[k] = v
+		}
+		for i, a := range args {
+			vars[fmt.Sprintf("$%d", i)] = a
+		}
+		ctx := &EvalCtx{ex: ex, pre: ex.topPre, post: st, vars: vars, bound: map[string]Value{}, fn: ex.top}
+		t, err := ctx.EvalBool(cl.E)
+		if err != nil {
+			ex.oblige(st, "binding", ex.topC.Key+"#binding", cl.Props, TFalse, fmt.Sprintf("assert@%s[%s]: %v", cl.Callee, cl.Label, err))
+			continue
+		}
+		name := fmt.Sprintf("%s#assert@%s[%s]", ex.topC.Key, cl.Callee, cl.Label)
+		for _, sd := range ctx.side {
+			st.assume(sd)
+		}
+		ctx.side = nil
+		if relevant(cl, ex.prop) {
+			ex.oblige(st, "assert", name, cl.Props, t, cl.Text)
+		}
+		st.assume(t)
+		// ghost rebinding
+		if cl.E.Op == "binary" && cl.E.Name == "==" && cl.E.Args[0].Op == "ident" && strings.HasPrefix(cl.E.Args[0].Name, "$") {
+			if sl, ok := vars[cl.E.Args[0].Name].(VSlice); ok && sl.Obj >= 0 {
+				func() {
+					defer func() { recover() }()
+					rhs := bytesTerm(ctx.norm(ctx.eval(cl.E.Args[1])))
+					if rhs == nil {
+						return
+					}
+					if n, ok := Blen(rhs).U64(); ok && n <= 256 {
+						if !readOnlyCallee {
+							arr := st.heap[sl.Obj]
+							for k := uint64(0); k < n; k++ {
+								arr = Store(arr, BVAdd(sl.Off, BVU(64, k)), Select(Barr(rhs), BVU(64, k)))
+							}
+							st.heap[sl.Obj] = arr
+						}
+						if readOnlyCallee {
+							// the callee only reads the argument: hand it the spec's value itself
+							var idx int
+							fmt.Sscanf(cl.E.Args[0].Name, "$%d", &idx)
+							if idx < len(args) {
+								na := append([]Value(nil), args...)
+								na[idx] = ex.sliceOf(st, rhs, TFalse)
+								args = na
+							}
+						}
+					}
+				}()
+			}
+		}
+	}
+	return args
 }
